@@ -6,6 +6,14 @@ VERIF = os.path.dirname(os.path.dirname(os.path.abspath(__file__)))
 TRUST = "trusted base: the harness' own reference models (from-scratch interpreter Ref, shadow of declared dependencies, naive graph model, HashMap models), rustc/cargo, and Miri for the sanitizer leg; reach is bounded by the workload generator (see DESIGN.md section 12)"
 
 CHECKS = {
+ "C05": dict(cat="exploration", ref="5 (C05), 6 (K4)", tech="fault injection of hidden reads/writes into well-formed programs + runtime monitors: online legality of every returning read / entered write against the shadow, abort-before-modification, final store structure, second oracle from the from-scratch interpreter",
+   text="Hidden reads and writes are injected value-conditionally at random tasks and positions so that they become live in some session of a history (writer first, reader first, same or different sessions, top-down and bottom-up). A read that returns, or a write function that is entered, while the shadow of recorded dependencies says reader and writer are unrelated is a violation; so is a value returned where the from-scratch interpreter hits a hidden dependency. The clause about the final store structure is known not to hold (K4)."),
+ "C06": dict(cat="exploration", ref="5 (C06)", tech="fault injection of second writers + runtime monitors: online single-writer check against the shadow, abort-before-modification for Context::write, one writer per resource in the store dump, second oracle from the from-scratch interpreter; silence on re-executed writers",
+   text="A second writer is injected value-conditionally; any write that proceeds while another task is the recorded writer is a violation, as is an overlap abort after the write function ran, two write edges in the dump, or a value returned where the reference interpreter finds an overlap. Well-formed programs with writers re-executed in every mode must never be reported."),
+ "C07": dict(cat="exploration", ref="5 (C07)", tech="fault injection of back requires (cycles of length 1..n, value-conditional) + runtime monitors on the task-side execution stack, step bound, second oracle from the from-scratch interpreter; rank invariant through the store dump",
+   text="Requires of earlier or the same task are injected; a task entered while on the execution stack, a require returning a value for a task on the stack, exceeding the step bound, or a returned value where the reference interpreter closes a cycle are violations; the store's topological ranks are checked at every quiescent point."),
+ "C19": dict(cat="fault_enumeration", ref="5 (C19)", tech="crash-point enumeration (panic at every task operation k of a session) and injected diagnosed violations/user panics, each followed by further sessions on the same instance under all monitors; panic classification",
+   text="For each chosen session every task operation k is made to panic in turn; after the caught abort the rest of the history must return from-scratch results (static-role programs: no abort at all). Injected violations and task panics are followed by sessions with the cause kept or removed. Any panic that is not a diagnosis or the injected one (BUG..., unwrap/index panics inside /repo) is a violation."),
  "C01": dict(cat="exploration", ref="5 (C01)", tech="runtime monitor: differential check of every Session::require result and of resource contents against a from-scratch reference interpreter, over generated programs x states x top-down histories",
    text="Thousands (thorough: hundreds of thousands) of generated task programs with value-dependent structure are driven through histories of top-down sessions and external changes on one real Pie instance; each returned output and the resource contents after each session are compared with a from-scratch interpreter that shares no code with pie (thorough: also with a fresh Pie). Held on the executions listed in the evidence."),
  "C02": dict(cat="exploration", ref="5 (C02)", tech="runtime monitors over the checker-side and task-side event log: at-most-once, justification of every execution by an inconsistent verdict, per-owner validation order = declaration order, idempotence probe session, subset-of-from-scratch for exact checkers",
@@ -22,8 +30,8 @@ CHECKS = {
    text="All 23 tracker callbacks are recorded in the same total order as the task-side events and checked for nesting, for exact agreement with real executions/returns/stamps/verdicts, for identical delivery to both children of a CompositeTracker, and EventTracker's record, indices and ~30 helpers are compared with a reference for every event and key."),
  "C18": dict(cat="fault_enumeration", ref="5 (C18)", tech="fault injection at ResourceChecker::check (armed per owner/resource, unique error serials) + runtime monitors: reported exactly once, owner re-executed/scheduled, no abort, still equal to the reference interpreter",
    text="Failing checkers are armed and disarmed between builds at arbitrary dependencies; each injected error must appear exactly once in dependency_check_errors, must lead to re-execution/scheduling of its owner, must not abort the build, and the results must still equal the from-scratch reference."),
- "C20": dict(cat="exploration", ref="5 (C20), 6 (K3)", tech="runtime monitor: any abort of a well-formed program is a violation (well-formed class); role-flip class pending",
-   text="Well-formed programs (no violation in any state) are driven through top-down, bottom-up and mixed histories; any abort is a violation."),
+ "C20": dict(cat="exploration", ref="5 (C20), 6 (K3)", tech="runtime monitor: any abort of a well-formed program is a violation; for role-flipping programs every diagnosed abort is compared with from-scratch builds of all known tasks (several orders, strict and collecting) and otherwise must match the stale-edge classifier (K3)",
+   text="Well-formed programs must never abort. In role-flipping programs each diagnosed abort must be confirmed by a from-scratch build of all known tasks in the current state, or be explained by one of the four recorded stale-edge patterns; an unexplained abort is a violation."),
  "C10": dict(cat="exploration", ref="5 (C10/C11)", tech="runtime differential monitor: real pie_graph::DAG vs naive adjacency-list model after every operation (exhaustive small-scope + seeded random op sequences); Miri shard in thorough",
    text="Every operation sequence of the small-scope families and tens of thousands of random sequences are executed on the real DAG; after each operation the monitor checks rank bijection, rank order on every edge, the cycle verdict against plain DFS reachability and exact state rollback on rejection. Held-on-what-was-run, not a proof; the right level because the property is a safety property of finite operation sequences fully observable through the public API."),
  "C11": dict(cat="exploration", ref="5 (C10/C11)", tech="runtime differential monitor: all public DAG queries vs naive model for all nodes/pairs after every operation; Miri shard in thorough",
